@@ -154,7 +154,7 @@ CaseLaws ==
     THEN /\ FormPre(cs.form, cs.x)
          \* at most one target call; when there is one the result is the target's (not_fn: its negation)
          /\ Len(e.calls) <= 1
-         /\ (Len(e.calls) = 1 /\ cs.form \notin {"nf_l", "nf_c", "nf_r", "nf_fn"}) => e.ret = <<e.calls[1].r>>
+         /\ (Len(e.calls) = 1 /\ cs.form \notin {"nf_l", "nf_c", "nf_r", "nf_fn"}) => e.ret[1] = e.calls[1].r
          /\ (cs.form \in {"nf_l", "nf_c", "nf_r", "nf_fn"}) => e.ret = <<1 - e.calls[1].r>>
     ELSE /\ TupPre(cs.k, cs.ty, cs.ty2, cs.op, cs.x)
          /\ LET p == cs.x.p q == cs.x.q n == Len(cs.ty) IN
